@@ -218,43 +218,53 @@ def real_cycles(res, n):
         import watchdog.observers.inotify as inomod
 
         real_thread_start = threading.Thread.start
-        fail = {"on": False}
+        fail = {"on": False, "cls": None}
+
+        import watchdog.observers.inotify_buffer as bufmod
 
         def failing_start(self):
-            if fail["on"] and isinstance(self, inomod.InotifyEmitter):
+            if fail["on"] and isinstance(self, fail["cls"]):
                 raise RuntimeError("can't start new thread")
             return real_thread_start(self)
 
         threading.Thread.start = failing_start
         try:
-            for _ in range(n):
-                o = InotifyObserver()
-                o.schedule(FileSystemEventHandler(), base, recursive=True)
-                fail["on"] = True
-                try:
-                    o.start()
-                except RuntimeError:
-                    pass
-                fail["on"] = False
-                o.stop()
-            c = settle(before)
-            if c != before:
-                problems.append(f"after {n} start() calls whose emitter thread could not be started: (fds, threads) {before} -> {c}")
-            o = InotifyObserver()
-            o.start()
-            mid2 = counts()
-            for _ in range(n):
-                fail["on"] = True
-                try:
+            # each helper thread of a watch in turn: the emitter's own thread, and the reader thread that the inotify buffer
+            # starts in its constructor (the inotify descriptor and the wake-up pipe exist by then)
+            for cls, what in ((inomod.InotifyEmitter, "emitter thread"), (bufmod.InotifyBuffer, "inotify reader thread")):
+                fail["cls"] = cls
+                for _ in range(n):
+                    o = InotifyObserver()
                     o.schedule(FileSystemEventHandler(), base, recursive=True)
-                except RuntimeError:
-                    pass
-                fail["on"] = False
-            c = settle(mid2)
-            if c != mid2:
-                problems.append(f"after {n} schedule() calls whose emitter thread could not be started: (fds, threads) {mid2} -> {c}")
-            o.stop()
-            o.join()
+                    fail["on"] = True
+                    try:
+                        o.start()
+                    except RuntimeError:
+                        pass
+                    fail["on"] = False
+                    o.stop()
+                c = settle(before)
+                if c != before:
+                    problems.append(f"after {n} start() calls whose {what} could not be started: (fds, threads) {before} -> {c}")
+                o = InotifyObserver()
+                o.start()
+                mid2 = counts()
+                for _ in range(n):
+                    fail["on"] = True
+                    try:
+                        o.schedule(FileSystemEventHandler(), base, recursive=True)
+                    except RuntimeError:
+                        pass
+                    fail["on"] = False
+                c = settle(mid2)
+                if c != mid2:
+                    problems.append(f"after {n} schedule() calls whose {what} could not be started: (fds, threads) {mid2} -> {c}")
+                o.stop()
+                o.join()
+                c = settle(before)
+                if c != before:
+                    problems.append(f"after the final stop() of the observer whose {what} failed to start: (fds, threads) {before} -> {c}")
+                    before = c
         finally:
             threading.Thread.start = real_thread_start
         res.count(4 * n)
